@@ -188,6 +188,34 @@ def weight_mass(x, a, b, alpha, rule):
     return math.fsum(w[i] * (x[a + i + 1] - x[a + i]) for i in range(b - a))
 
 
+def yhat_estimates(case, res, fi):
+    """|shift scaling factor| of every interval, recovered from the interior displacements (disp_i = y_hat * w_i).
+    The end weights are 1 - (1 +- k*eps)**alpha, i.e. zero only to rounding, so a fixed point legitimately moves by
+    about eps * max(1, alpha) * (1 + |x|/width) * |y_hat| - which is large when all interior weights are small."""
+    x = [float(v) for v in case["x"]]
+    y = [float(v) for v in case["y"]]
+    out = []
+    for k in range(len(fi) - 1):
+        a, b = fi[k], fi[k + 1]
+        w = weights(x, a, b, case["alpha"])[1:-1]
+        est = 0.0
+        for wi, i in zip(w, range(a + 1, b)):
+            if wi > 0:
+                est = max(est, abs(res[i] - y[i]) / wi)
+        out.append(est)
+    return out
+
+
+def end_leak(case, fi, yhat, k):
+    """bound on what rounding of the end weights of interval k may add to a fixed point (see yhat_estimates)"""
+    x = case["x"]
+    xmax = max(abs(float(x[0])), abs(float(x[-1])))
+    if not 0 <= k < len(yhat):
+        return 0.0
+    wk = float(x[fi[k + 1]]) - float(x[fi[k]])
+    return 64 * tol.EPS * max(1.0, case["alpha"]) * (1.0 + xmax / wk) * yhat[k]
+
+
 def judge_c01(ctx, cid, case, res, fi, ri):
     """per-interval and total integrals of the result vs reference integrals"""
     x = [float(v) for v in case["x"]]
@@ -200,6 +228,7 @@ def judge_c01(ctx, cid, case, res, fi, ri):
     # end weights of neighbouring stretches vanish only to rounding: an all-zero interval next to large values
     # legitimately carries ~eps of them, hence a small share of the global magnitude in every scale
     gmag = max(max(abs(v) for v in res), max(abs(v) for v in y), max(abs(v) for v in yr))
+    yhat = yhat_estimates(case, res, fi)
     ok = True
     for k in range(len(fi) - 1):
         a, b = fi[k], fi[k + 1]
@@ -208,8 +237,11 @@ def judge_c01(ctx, cid, case, res, fi, ri):
         before = I.integ(x, y, a, b, case["target_rule"])
         sc = (I.scale(x, res, a, b, case["target_rule"]) + I.scale(xr, yr, ri[k], ri[k + 1], case["ref_rule"])
               + I.scale(x, y, a, b, case["target_rule"]) + 1e-3 * gmag * (x[b] - x[a]))
+        # the two end samples of the interval may carry rounding leakage of this and the neighbouring stretches
+        leak = (end_leak(case, fi, yhat, k - 1) + 2 * end_leak(case, fi, yhat, k) + end_leak(case, fi, yhat, k + 1)) \
+            * (x[b] - x[a])
         ctx.track_worst("c01_rel_err", tol.err(got, want, sc))
-        if not tol.close(got, want, sc, rel):
+        if abs(got - want) > rel * max(sc, abs(want)) + leak:
             ok = False
             ctx.violation("interval_integral", cid, {"interval": k, "fixed": [a, b], "got": got, "want": want,
                                                      "scale": sc, "rel_tol": rel, "case": brief(case)})
@@ -222,7 +254,8 @@ def judge_c01(ctx, cid, case, res, fi, ri):
     if ok:
         got = I.integ(x, res, fi[0], fi[-1], case["target_rule"])
         want = I.integ(xr, yr, ri[0], ri[-1], case["ref_rule"])
-        if not tol.close(got, want, tot_scale, rel):
+        leak = sum(4 * end_leak(case, fi, yhat, k) * (x[fi[k + 1]] - x[fi[k]]) for k in range(len(fi) - 1))
+        if abs(got - want) > rel * max(tot_scale, abs(want)) + leak:
             ctx.violation("total_integral", cid, {"got": got, "want": want, "scale": tot_scale, "case": brief(case)})
     return nontrivial
 
@@ -242,19 +275,14 @@ def judge_c03(ctx, cid, case, res, fi, ri):
             return False
     ctx.monitor("c03:outside_samples", fi[0] + (m - 1 - fi[-1]))
     disp = [res[i] - y[i] for i in range(m)]
-    maxdisp = [max((abs(disp[i]) for i in range(fi[k] + 1, fi[k + 1])), default=0.0) for k in range(len(fi) - 1)]
+    yhat = yhat_estimates(case, res, fi)
     nontrivial = False
     for k in range(len(fi) - 1):
         a, b = fi[k], fi[k + 1]
         width = x[b] - x[a]
         # (b) fixed points: only rounding of the end weights may leak
         for e, nb in ((a, [k - 1, k]), (b, [k, k + 1])):
-            lim = 0.0
-            for kk in nb:
-                if 0 <= kk < len(maxdisp):
-                    wk = x[fi[kk + 1]] - x[fi[kk]]
-                    lim += 64 * tol.EPS * max(1.0, alpha) * (1.0 + xmax / wk) * maxdisp[kk]
-            lim += 8 * tol.EPS * abs(y[e])
+            lim = sum(end_leak(case, fi, yhat, kk) for kk in nb) + 8 * tol.EPS * abs(y[e])
             if abs(disp[e]) > lim:
                 ctx.violation("fixed_point_moved", cid, {"index": e, "in": y[e], "out": res[e], "limit": lim,
                                                          "case": brief(case)})
